@@ -237,8 +237,9 @@ fn run_config(t: &Template, places: &[(Place, Arg)], with_error: bool, fam: &str
             return "panic".into();
         }
     };
-    let (_, bfiles, bd) = b;
-    let (_, wfiles, wd) = w;
+    // keep the ASTs alive: the files point into them
+    let (_bast, bfiles, bd) = b;
+    let (_wast, wfiles, wd) = w;
     // template sanity: the baseline produces the target lint as a warning
     let target_base: Vec<&DiagObs> = bd.iter().filter(|d| d.code == t.lint).collect();
     if target_base.is_empty() || target_base.iter().any(|d| d.level != "warning") {
